@@ -91,3 +91,23 @@ Example relayout_example :
   let kw s := NRaw s in
   relayout [kw [105; 115]%N; NSkip [32]%N; kw [97]%N] [NSkip [10]%N; kw [73; 83]%N; kw [97]%N].
 Proof. cbn. apply rl_skip_r. apply rl_raw; [reflexivity|]. apply rl_skip_l. apply rl_raw; [reflexivity|]. constructor. Qed.
+
+(* re-layout is symmetric: undoing a re-layout is a re-layout *)
+Lemma relayout_sym l l' : relayout l l' -> relayout l' l.
+Proof.
+  induction 1 as [|v l l' _ IH|v l l' _ IH|v v' l l' E _ IH|r v v' l l' _ IH].
+  - constructor.
+  - now apply rl_skip_r.
+  - now apply rl_skip_l.
+  - apply rl_raw; [now symmetry|exact IH].
+  - now apply rl_done.
+Qed.
+
+(* the invariance read from the re-laid-out file: if the classifier does not run off the end of the variant, the
+   original gets the same roles and the same verdict (an accepted file's re-layouts are accepted, and a rejected
+   re-layout means the original was rejected) *)
+Theorem classifier_relayout_invariant_rev p l l' : relayout l l' ->
+  aexec p (alpha l' 0) [] <> Stuck -> exec p l 0 [] = exec p l' 0 [].
+Proof.
+  intros R H. rewrite <- (relayout_alpha l l' R) in H. now apply classifier_relayout_invariant.
+Qed.
